@@ -81,6 +81,10 @@ func rootOnce(c *Ctx) {
 					}
 				}
 				if flag == nil {
+					if why := handlerSwapForm(exec, cl); why != "" {
+						c.R.OK(key, c.ipos(call), why)
+						continue
+					}
 					c.R.Bad(key, c.ipos(call), "the "+kind+" root is executed on every call of the response handler (no once-flag of Exec guards it): transports call the handler until it returns nil, so every resolver runs again")
 					continue
 				}
@@ -143,4 +147,78 @@ func rootOnce(c *Ctx) {
 	if n == 0 {
 		c.R.Fail("root-once found no root calls")
 	}
+}
+
+// handlerSwapForm: the once-ness kept by control flow instead of a flag.  The function literal that runs the root (rootFn) is
+// the initial value of a variable of Exec; whoever calls through that variable first stores into it a literal that does not run
+// the root, and nothing ever stores rootFn into it again.
+func handlerSwapForm(exec, rootFn *ssa.Function) string {
+	reachesRoot := func(f *ssa.Function) bool {
+		for _, x := range an.WithClosures(f) {
+			if x == rootFn {
+				return true
+			}
+		}
+		return f == rootFn
+	}
+	for _, b := range exec.Blocks {
+		for _, in := range b.Instrs {
+			st, ok := in.(*ssa.Store)
+			if !ok {
+				continue
+			}
+			mc, ok := st.Val.(*ssa.MakeClosure)
+			if !ok || mc.Fn != ssa.Value(rootFn) {
+				continue
+			}
+			cell, ok := st.Addr.(*ssa.Alloc)
+			if !ok {
+				continue
+			}
+			// every other store to the cell stores a literal that cannot run the root
+			others := 0
+			for _, s2 := range an.CellStores(cell) {
+				if s2 == st {
+					continue
+				}
+				var fn2 *ssa.Function
+				for _, d := range an.Defs(s2.Val) {
+					if m2, ok := d.(*ssa.MakeClosure); ok {
+						fn2, _ = m2.Fn.(*ssa.Function)
+					}
+				}
+				if fn2 == nil || reachesRoot(fn2) {
+					return ""
+				}
+				others++
+			}
+			if others == 0 {
+				return ""
+			}
+			// every call through the cell is preceded, in its function, by such a store
+			calls := 0
+			for _, ld := range an.CellLoads(cell) {
+				for _, r := range an.Referrers(ld) {
+					ci, ok := r.(ssa.CallInstruction)
+					if !ok || ci.Common().Value != ld {
+						continue
+					}
+					calls++
+					swapped := false
+					for _, s2 := range an.CellStores(cell) {
+						if s2 != st && s2.Parent() == r.Parent() && an.Before(s2, r) {
+							swapped = true
+						}
+					}
+					if !swapped {
+						return ""
+					}
+				}
+			}
+			if calls > 0 {
+				return "run through a handler variable that is switched to the drain function before the first call (once by control flow)"
+			}
+		}
+	}
+	return ""
 }
